@@ -1142,17 +1142,19 @@ func (rs *s3ClientStorage) ListMultipartUploads(ctx context.Context, bucketName 
 		return *commonPrefix.Prefix
 	}, listMultipartUploadsResult.CommonPrefixes)
 	return &storage.ListMultipartUploadsResult{
-		BucketName:         storage.MustNewBucketName(*listMultipartUploadsResult.Bucket),
-		KeyMarker:          *listMultipartUploadsResult.KeyMarker,
-		UploadIdMarker:     *listMultipartUploadsResult.UploadIdMarker,
-		Prefix:             *listMultipartUploadsResult.Prefix,
-		Delimiter:          *listMultipartUploadsResult.Delimiter,
-		NextKeyMarker:      *listMultipartUploadsResult.NextKeyMarker,
-		NextUploadIdMarker: *listMultipartUploadsResult.NextUploadIdMarker,
-		MaxUploads:         *listMultipartUploadsResult.MaxUploads,
+		// Optional response elements (markers, prefix, delimiter) are absent
+		// when they were not part of the request or the listing is complete.
+		BucketName:         bucketName,
+		KeyMarker:          aws.ToString(listMultipartUploadsResult.KeyMarker),
+		UploadIdMarker:     aws.ToString(listMultipartUploadsResult.UploadIdMarker),
+		Prefix:             aws.ToString(listMultipartUploadsResult.Prefix),
+		Delimiter:          aws.ToString(listMultipartUploadsResult.Delimiter),
+		NextKeyMarker:      aws.ToString(listMultipartUploadsResult.NextKeyMarker),
+		NextUploadIdMarker: aws.ToString(listMultipartUploadsResult.NextUploadIdMarker),
+		MaxUploads:         aws.ToInt32(listMultipartUploadsResult.MaxUploads),
 		CommonPrefixes:     commonPrefixes,
 		Uploads:            uploads,
-		IsTruncated:        *listMultipartUploadsResult.IsTruncated,
+		IsTruncated:        aws.ToBool(listMultipartUploadsResult.IsTruncated),
 	}, nil
 }
 
